@@ -262,11 +262,12 @@ def _check(prop, tier, seed, replay, t0):
     for k in known:
         if k.get('status') == 'known' and k.get('case') is not None:
             extra_cases.append(k['case'])
+    # fixed case counts (reproducible evidence); the time budget is only a cap
+    ncases = P.get('oracle_cases', {}).get(tier, 16000 if tier == 'quick' else 800000)
     if red:
-        budget = 60 if tier == 'quick' else 600
-    else:
-        budget = P.get('oracle_budget', {}).get(tier, 8 if tier == 'quick' else 120)
-    orc_res = run_oracle(prop, seed, budget, extra_cases=extra_cases)
+        ncases *= 4
+    budget = 90 if tier == 'quick' else 1500
+    orc_res = run_oracle(prop, seed, budget, max_cases=ncases, extra_cases=extra_cases)
     report['steps']['oracle'] = {'evaluations': orc_res['evaluations'], 'nontrivial': orc_res['nontrivial'], 'violations': len(orc_res['violations']), 'budget_s': budget}
 
     # classify violations against the known-findings file
